@@ -211,7 +211,7 @@ def run(tier):
         PID, tier, progs, t0, outcome=out, extra=extra,
         rule="one Kani harness per (operator trait, struct shape): all payloads of both operands symbolic; every owned/reference form of the trait is "
              "called in the harness; non-trivial = at least one field; distinct by trait|shape|entry",
-        bounds="10 binary + 10 assign + Neg/Not; unit/tuple/named structs with 0..4 fields of W (non-commutative, call-recording) or generic A:=W; trace <= 4 events",
+        bounds="10 binary + 10 assign + Neg/Not; unit/tuple/named structs with 0..4 fields of W (non-commutative, call-recording) or generic A:=W (also with `Self` - plain and nested in generic arguments - in the declared bound); a struct produced by macro_rules! with identifier field types; field names not in alphabetical order; trace <= 4 events",
         outside="field types other than W; more than 4 fields; which reference form of the FIELD operator is invoked (not part of the statement)",
         functions=["the 4 `impl Op<..>`, 2 `impl OpAssign<..>` or 2 unary impls generated by derive_ex per program"],
         assumptions=["W's operator result wop(code,a,b)=3a+b+code (wrapping) is non-commutative so that swapped operands and cross-wired fields change the value"])
